@@ -306,6 +306,25 @@ GUFUNCS = {
 }
 GU_QUICK = ("scale", "wsum", "wsum3", "cumsum", "dot", "dotb", "outer", "outerb", "minmax", "pair", "pair2", "matmul")
 GU_THOROUGH = tuple(GUFUNCS)
+# thorough: larger inputs for the same signatures
+GU_SHAPES_THOROUGH = {
+    "scale": ((3, 4),),
+    "wsum": ((3, 4),),
+    "cumsum": ((4, 4),),
+    "dot": ((4, 3), (4, 3)),
+    "dotb": ((4, 3), (3,)),
+    "outer": ((4, 2), (4,)),
+    "minmax": ((4, 4),),
+    "pair": ((6,),),
+    "pair2": ((3, 4),),
+    "matmul": ((2, 3, 3), (3, 3)),
+}
+
+
+def gu_shapes(name, tier):
+    if tier == "thorough" and name in GU_SHAPES_THOROUGH:
+        return GU_SHAPES_THOROUGH[name]
+    return GUFUNCS[name][2]
 
 
 def gu_ncore(name):
@@ -318,11 +337,11 @@ def gu_ncore(name):
 
 
 # --------------------------------------------------------------------------- tiers / rule
-MB_SHAPES = {"quick": ((4,), (2, 3), (3, 2), (3, 4), (2, 2, 2)), "thorough": ((4,), (5,), (6,), (2, 3), (3, 2), (3, 4), (4, 3), (2, 2, 2), (2, 3, 2), (4, 4))}
+MB_SHAPES = {"quick": ((4,), (2, 3), (3, 2), (3, 4), (4, 3), (2, 2, 2)), "thorough": ((4,), (5,), (6,), (2, 3), (3, 2), (3, 4), (4, 3), (2, 2, 2), (2, 3, 2), (4, 4))}
 MBS_SHAPES = {"quick": ((4,), (5,), (2, 3), (3, 2), (3, 4), (2, 2, 2)), "thorough": ((4,), (5,), (6,), (2, 3), (3, 2), (3, 4), (4, 3), (2, 2, 2), (2, 3, 2), (4, 4))}
 MBZ_N = {"quick": 4, "thorough": 5}
 MB0_SHAPES = {"quick": ((1,), (2,), (3,), (4,), (5,), (2, 3), (3, 2), (3, 4), (2, 2, 2)), "thorough": ((1,), (2,), (3,), (4,), (5,), (6,), (7,), (2, 3), (3, 2), (3, 4), (4, 4), (2, 2, 2), (2, 3, 2))}
-BW_SIZES = {"quick": {"i": 3, "j": 4, "k": 2}, "thorough": {"i": 3, "j": 4, "k": 3}}
+BW_SIZES = {"quick": {"i": 3, "j": 4, "k": 2}, "thorough": {"i": 4, "j": 4, "k": 3}}
 ARGLISTS = (
     ("x",),
     ("x", "same"),
@@ -388,7 +407,7 @@ def mbs_variants(ndim):
 
 def gu_extras(name):
     if name in ("wsum", "wsum3"):
-        nd = len(GUFUNCS[name][2][0])
+        nd = len(GUFUNCS[name][2][0])  # same rank in both tiers
         ex = [None]
         for ax in range(nd):
             ex.append(("axis", ax, False))
@@ -449,7 +468,7 @@ def group_cases(group, tier):
         out_ind, inds = PATTERNS[pat]
         arr_inds = [i for i in inds if i is not None]
         if pat == "diag":
-            shapes = [(sizes["i"], sizes["i"])] + ([(4, 4)] if tier == "thorough" else [])
+            shapes = [(3, 3)] + ([(4, 4)] if tier == "thorough" else [])
             for shp in shapes:
                 for ch in enums.chunkings(shp):
                     yield ("bw", pat, (ch,), None, True)
@@ -471,7 +490,7 @@ def group_cases(group, tier):
                     yield ("bw", pat, tuple(chs), conc, False)
     elif kind == "gu":
         name = group[1]
-        sig, fn, shapes, osz = GUFUNCS[name]
+        shapes = gu_shapes(name, tier)
         per_arg = [list(enums.chunkings(s)) for s in shapes]
         for chs in itertools.product(*per_arg):
             for vec in (True, False):
@@ -557,6 +576,9 @@ def norm_loc(loc):
 
 # --------------------------------------------------------------------------- known classes (see C35.findings.json)
 def known_class(case):
+    """narrow input classes of recorded findings (C35.findings.json); appended to the finding key"""
+    if case[0] == "bw" and case[1] == "diag" and case[2][0][0] != case[2][0][1]:
+        return "repeated-index-unequal-chunks"
     return None
 
 
@@ -992,7 +1014,8 @@ def run_gu(case, ctx):
     import dask.array as da
 
     _, name, chs, vec, ar, ex = case
-    sig, fn, shapes, osz = GUFUNCS[name]
+    sig, fn, _, osz = GUFUNCS[name]
+    shapes = tuple(tuple(sum(c) for c in ch) for ch in chs)  # the case carries the shapes through its chunkings
     datas = [arr.data(s, ctx.seed + k, lo=1 + 100 * k) for k, s in enumerate(shapes)]
     dargs = [da.from_array(d, chunks=c) for d, c in zip(datas, chs)]
     ncore = gu_ncore(name)
